@@ -30,16 +30,16 @@ const CONDS: [fn(&GraphModel, &u16) -> bool; 6] = [cond::<0>, cond::<1>, cond::<
 
 impl Model for GraphModel {
     type State = u16;
-    type Action = u8;
+    type Action = u16;
     fn init_states(&self) -> Vec<u16> {
         self.init.clone()
     }
-    fn actions(&self, s: &u16, actions: &mut Vec<u8>) {
+    fn actions(&self, s: &u16, actions: &mut Vec<u16>) {
         for a in 0..self.adj[*s as usize].len() {
-            actions.push(a as u8);
+            actions.push(a as u16);
         }
     }
-    fn next_state(&self, s: &u16, a: u8) -> Option<u16> {
+    fn next_state(&self, s: &u16, a: u16) -> Option<u16> {
         if self.panic_at == Some(*s) {
             panic!("model panic at state {}", s);
         }
